@@ -335,6 +335,73 @@ UnionVectorsOK(P, Ps) ==
 UnionOKP(P, Ps) == UnionTypesOK(P, Ps) /\ UnionRestOK(P, Ps) /\ UnionVectorsOK(P, Ps)
 
 ---------------------------------------------------------------------------
+(* Links checked BY NAME.  An index that is stale but happens to land on a *)
+(* live record of the right kind passes ClosedDB; these rules compare the  *)
+(* names at both ends of a link.                                           *)
+(*  - owner rules (hold in every database): the accessors of an element    *)
+(*    listed by class C, the getters of a make_seq of C, the constructors, *)
+(*    methods and casts of C are functions of class C.                     *)
+(*  - builder naming (databases written by interrogate): a member function *)
+(*    is scoped by its class, a constructor is named like its class (cn:   *)
+(*    the class name without template arguments), a                        *)
+(*    destructor ~class, a synthesised getter/setter get_/set_<element>,   *)
+(*    an upcast Derived::upcast_to_Base, a downcast                        *)
+(*    Base::downcast_to_Derived, members and nested types are scoped by    *)
+(*    their class.                                                         *)
+ElemFields(r) == <<r.getter, r.setter, r.has, r.clear, r.del, r.ins, r.getkey, r.len>>
+OwnerViol(db) ==
+  UNION {{<<"element", t, e>> : e \in {x \in SeqRange(db.t[t].elems) \cap EIx(db) :
+              \E f \in SeqRange(ElemFields(db.e[x])) : f \in FIx(db) /\ db.f[f].cls # t}} : t \in TIx(db)}
+  \cup UNION {{<<"make_seq", t, q>> : q \in {x \in SeqRange(db.t[t].mseqs) \cap SIx(db) :
+              \E f \in {db.s[x].lenf, db.s[x].elemf} : f \in FIx(db) /\ db.f[f].cls # t}} : t \in TIx(db)}
+  \cup {<<"global element", 0, e>> : e \in {x \in SeqRange(db.globE) \cap EIx(db) :
+              \E f \in SeqRange(ElemFields(db.e[x])) : f \in FIx(db) /\ db.f[f].cls # 0}}
+
+BuilderNameViol(db) ==
+  {<<"member function scope", i>> : i \in {f \in FIx(db) : db.f[f].cls \in TIx(db) /\
+        db.f[f].sn # db.t[db.f[f].cls].sn \o "::" \o db.f[f].n}}
+  \cup {<<"constructor name", t>> : t \in {x \in TIx(db) :
+        \E c \in SeqRange(db.t[x].ctors) \cap FIx(db) : db.f[c].n # db.t[x].cn}}
+  \cup {<<"destructor name", t>> : t \in {x \in TIx(db) : db.t[x].dtor \in FIx(db) /\
+        LET d == db.f[db.t[x].dtor] IN d.cls \in TIx(db) /\ d.n # "~" \o db.t[d.cls].cn}}
+  \cup {<<"getter name", e>> : e \in {x \in EIx(db) : db.e[x].getter \in FIx(db) /\
+        db.f[db.e[x].getter].isget /\ db.f[db.e[x].getter].n # "get_" \o db.e[x].n}}
+  \cup {<<"manifest getter name", m>> : m \in {x \in MIx(db) : db.m[x].getter \in FIx(db) /\
+        db.f[db.m[x].getter].isget /\ db.f[db.m[x].getter].n # "get_" \o db.m[x].n}}
+  \cup {<<"setter name", e>> : e \in {x \in EIx(db) : db.e[x].setter \in FIx(db) /\
+        db.f[db.e[x].setter].isset /\ db.f[db.e[x].setter].n # "set_" \o db.e[x].n}}
+  \cup {<<"upcast name", t>> : t \in {x \in TIx(db) : \E k \in DOMAIN db.t[x].derivs :
+        LET d == db.t[x].derivs[k] IN
+        d.up \in FIx(db) /\ d.base \in TIx(db) /\
+        (db.f[d.up].cls # x \/ db.f[d.up].n # "upcast_to_" \o db.t[d.base].n)}}
+  \cup {<<"downcast name", t>> : t \in {x \in TIx(db) : \E k \in DOMAIN db.t[x].derivs :
+        LET d == db.t[x].derivs[k] IN
+        d.down \in FIx(db) /\ d.base \in TIx(db) /\
+        (db.f[d.down].cls # d.base \/ db.f[d.down].n # "downcast_to_" \o db.t[x].n)}}
+  \cup {<<"element scope", t>> : t \in {x \in TIx(db) : \E e \in SeqRange(db.t[x].elems) \cap EIx(db) :
+        db.e[e].sn # db.t[x].sn \o "::" \o db.e[e].n}}
+  \cup {<<"make_seq scope", t>> : t \in {x \in TIx(db) : \E q \in SeqRange(db.t[x].mseqs) \cap SIx(db) :
+        db.s[q].sn # db.t[x].sn \o "::" \o db.s[q].n}}
+  \cup {<<"nested scope", t>> : t \in {x \in TIx(db) : \E q \in SeqRange(db.t[x].nested) \cap TIx(db) :
+        db.t[q].sn # db.t[x].sn \o "::" \o db.t[q].n}}
+
+(* Ground truth of the input header: truth is a sequence of                 *)
+(*   [k |-> "e", sn |-> element, f |-> field, fn |-> scoped function name or ""]  *)
+(*   [k |-> "s", sn |-> make_seq, f |-> "lenf"/"elemf", fn |-> ...]          *)
+(* derived from the MAKE_* declarations of the header: the named record      *)
+(* must exist and the field must link the function of exactly that name.     *)
+FieldOf(r, f) == CASE f = "getter" -> r.getter [] f = "setter" -> r.setter [] f = "has" -> r.has
+                   [] f = "clear" -> r.clear [] f = "del" -> r.del [] f = "ins" -> r.ins
+                   [] f = "getkey" -> r.getkey [] f = "len" -> r.len [] f = "lenf" -> r.lenf [] f = "elemf" -> r.elemf
+FnName(db, i) == IF i = 0 THEN "" ELSE IF i \in FIx(db) THEN db.f[i].sn ELSE "?"
+TruthViol(db, truth) ==
+  {k \in DOMAIN truth :
+     LET x == truth[k]
+         src == IF x.k = "e" THEN db.e ELSE db.s
+         hits == {i \in DOMAIN src : src[i].sn = x.sn}
+     IN hits = {} \/ \E i \in hits : FnName(db, FieldOf(src[i], x.f)) # x.fn}
+
+---------------------------------------------------------------------------
 (* A database given as JSON (dumps of real databases, files carried by a   *)
 (* trace): {"w":[{"i":index,"r":record},...],...,"allT":[...],...}.        *)
 MapOfJson(q) == [i \in {q[k].i : k \in DOMAIN q} |-> (CHOOSE x \in SeqRange(q) : x.i = i).r]
